@@ -15,6 +15,9 @@ CHECKS = {
  "C10": ("model_checking", "the behaviours of Manif.tla replayed with Eigen::Map views (mutable, const, aliasing) over an unaligned user buffer with guard zones and in an AddressSanitizer build; ManifHistTrace.tla checks the whole buffer image after every call (frame condition cell by cell), equality with the owning twin and exact write-through", "TLA+ abstract machine with memory slots; behaviours replayed and validated step by step; ASan observes reads"),
  "C11": ("model_checking", "BundleLayout.tla enumerates layouts, checks the covering predicate and the direct-product laws of the model; Groups/LieMath handle bundle descriptors generically (block-diagonal matrix group), so every Bundle operation of the real library is validated against the product model, plus exact checks of the five offset tables, element<i>() aliasing, element-wise equality and off-block zeros", "TLA+ layout model + trace validation per generated layout"),
  "C14": ("model_checking", "StaticInit.tla: C++11 magic-static guard protocol over the dependency DAG of the library's function-local statics, all interleavings of 3 threads (exactly-once, no read before completion, sequential results, termination; two broken protocols and a cyclic table rejected); a header scanner binds the model's static table to the code; TLC-generated contention plans run under ThreadSanitizer in fresh processes and are validated by StaticInitTrace.tla", "TLA+ interleaving model + source scanner binding + TSan schedule runs validated against the spec"),
+ "C15": ("model_checking", "AlgoTrace.tla: end-point laws for all three methods and arbitrary end velocities, rejection of parameters outside [0,1] (incl. NaN), SLERP = A exp(s log(A^-1 B)) with the logarithm supplied as a witness that the spec verifies by its exponential series, left-equivariance; smoothing_phi compared with the exact normalised integral of t^m(1-t)^m whose end values and monotonicity TLC checks in-spec; unsupported degrees must raise", "TLA+ postcondition model with verified witnesses + trace validation"),
+ "C16": ("model_checking", "AlgoTrace.tla: validity, identical points, empty set raises, stationarity sum_i log(m^-1 X_i)=0 (witness logarithms verified by the spec) up to the stopping tolerance, order independence and left/right equivariance for the bi-invariant and Frechet means, left equivariance for the weighted average", "TLA+ postcondition model with verified witnesses + trace validation"),
+ "C18": ("model_checking", "AlgoTrace.tla: reflexivity (incl. large coordinates and the coefficient-negated twin), symmetry, and the banded threshold semantics (must accept below eps/8, must reject above 8 eps, free in between) for elements at controlled tangent distance and for tangents in the relative and absolute regime", "TLA+ relational model + trace validation"),
  "C17": ("model_checking", "DeCasteljau.tla: the transcribed window bookkeeping refines the specification windows on the whole box N<=16,k<=4 (TLC exhaustive, termination, index bounds); every configuration replayed on the real decasteljau with a one-hot trajectory whose output reveals the weights, validated by DeCasteljauTrace.tla", "TLA+ refinement model checked exhaustively + per-configuration replay on the implementation"),
 }
 NOT_YET = {}
